@@ -298,6 +298,16 @@ func corpus() []*Scenario {
 	addWS("default IQ reply, then close", true, sv, peer("elem", true, false, "iq"), peer("close", false, false, ""))
 	add("real deadline", true, sv, Actor{Kind: "setdeadline"}, cl, Actor{Kind: "timer", For: 1}, Actor{Kind: "probe"})
 	add("real deadline, no deadlines on the transport", false, sv, Actor{Kind: "setdeadline"}, Actor{Kind: "timer", For: 1}, peer("elem", false, false, ""))
+	// the connection refuses the closing tag: closing is final all the same
+	flt := Actor{Kind: "fault"}
+	add("the tag write fails; Close again, then transmit", true, flt, cl, cl, Actor{Kind: "send"}, Actor{Kind: "encode"}, Actor{Kind: "tokenwriter"})
+	add("the tag write fails in Close; Serve's shutdown must not write it again", true, sv, flt, cl, peer("close", false, false, ""), Actor{Kind: "probe"})
+	add("the tag write fails in Serve's shutdown; Close afterwards", false, sv, flt, peer("close", false, false, ""), cl, Actor{Kind: "send"})
+	add("the tag write fails in sendError; Serve returns the connection's error", true, sv, flt, peer("elem", false, true, ""), cl, Actor{Kind: "probe"})
+	add("the tag write fails after a stream error from the peer", false, sv, flt, peer("error", false, false, ""), Actor{Kind: "encodeelement"})
+	add("the fault comes after a successful Close", true, cl, flt, cl, Actor{Kind: "send"})
+	add("the tag write fails at the close deadline", true, sv, flt, Actor{Kind: "setdeadline", Past: true}, cl)
+	out = append(out, &Scenario{Mode: "forced", DLSup: true, WS: true, Actors: []Actor{flt, cl, cl, {Kind: "send"}}, Note: "websocket: the <close/> write fails; Close again"})
 	// handler errors that wrap io.EOF are handler errors, not the peer's close
 	for _, e := range []string{"wrapeof", "eofcause"} {
 		add("handler error that wraps io.EOF ("+e+")", true, sv, Actor{Kind: "peer", Ev: &Pev{Type: "elem", Fail: true, Err: e}}, Actor{Kind: "probe"}, Actor{Kind: "send"})
@@ -359,6 +369,10 @@ func exhaustiveSets() []*Scenario {
 	add(true, sv, Actor{Kind: "setdeadline"}, Actor{Kind: "setdeadline", Past: true}, peer("elem", false, false, ""))
 	add(true, sv, Actor{Kind: "setdeadline"}, peer("elem", false, false, ""), peer("close", false, false, ""))
 	add(false, sv, Actor{Kind: "peer", Ev: &Pev{Type: "elem", Fail: true, Err: "wrapeof"}}, cl)
+	add(true, Actor{Kind: "fault"}, cl, cl)
+	add(true, Actor{Kind: "fault"}, cl, Actor{Kind: "send"})
+	add(true, sv, Actor{Kind: "fault"}, peer("close", false, false, ""), cl)
+	add(false, sv, Actor{Kind: "fault"}, peer("elem", false, true, ""), cl)
 	addWS := func(dl bool, as ...Actor) {
 		out = append(out, &Scenario{Mode: "forced", DLSup: dl, WS: true, Actors: as, Note: "enumerated, websocket"})
 	}
@@ -425,6 +439,9 @@ func randomScenario(r *hx.Rand) *Scenario {
 				as = append(as, Actor{Kind: "setdeadline", Zero: true})
 			}
 		}
+	}
+	if r.Chance(1, 6) {
+		as = append(as, Actor{Kind: "fault"})
 	}
 	if len(as) == 0 {
 		as = append(as, Actor{Kind: "close"})
@@ -654,9 +671,9 @@ func main() {
 		x.wsProbes()
 		x.stallProbes()
 	}
-	res.Rule = "forced schedules over the yield points of session.go: a built-in corpus run in order; every schedule (up to a cap) of 29 small actor sets (5 of them on WebSocket-subprotocol sessions); " +
+	res.Rule = "forced schedules over the yield points of session.go: a built-in corpus run in order; every schedule (up to a cap) of 33 small actor sets (5 of them on WebSocket-subprotocol sessions); " +
 		"random sets of 1-12 actors, a quarter of them on sessions negotiated by websocket.NewSession (Close x0-2, transmitters of every family and API, Serve with a peer script of elements/close/stream error/bad input, " +
-		"SetCloseDeadline called 0-3 times with a later time / a time already passed / the zero time, token-reader probe) under random schedules; " +
+		"a connection that starts refusing the closing tag (fault), SetCloseDeadline called 0-3 times with a later time / a time already passed / the zero time, token-reader probe) under random schedules; " +
 		"real-timer scenarios (one call with a short real deadline that passes during the scenario, while other calls extend, shorten or clear it and the peer acts in between); free-running concurrent scenarios (oracle only); " +
 		"stall probes: the peer stops reading while Close / sendError / Serve's shutdown writes the closing element and Serve, SetCloseDeadline or State need the session state (oracle only; every forced scenario also asks, at each connection write, whether the state mutex is locked). " +
 		"distinct = hash of actors + realised decisions; non-trivial = the scenario contains a Close caller or Serve"
